@@ -37,6 +37,7 @@ fn main() {
         "C01" => props::c01::run(&mut ctx),
         "C02" => props::c02::run(&mut ctx),
         "C03" => props::c03::run(&mut ctx),
+        "C06" => props::c06::run(&mut ctx),
         "C12" => props::c12::run(&mut ctx),
         "C13" => props::c13::run(&mut ctx),
         "C15" => props::c15::run(&mut ctx),
